@@ -756,15 +756,17 @@ pub fn exec_lru<S: MdkStorageProvider>(s: &S, t: &[&str]) -> String {
         return exec(s, t);
     }
     let gid = mk_gid(u(t[2]));
-    let ids = |s: &S| -> Vec<u64> {
-        s.messages(&gid, Some(Pagination::new(Some(10000), Some(0)))).map(|l| l.iter().map(|m| eid_num(&m.id)).collect()).unwrap_or_default()
+    let ids = |s: &S| -> Vec<(u64, u64)> {
+        s.messages(&gid, Some(Pagination::new(Some(10000), Some(0)))).map(|l| l.iter().map(|m| (eid_num(&m.id), m.created_at.as_secs())).collect()).unwrap_or_default()
     };
     let before = ids(s);
     let r = exec(s, t);
     let after = ids(s);
-    let gone: Vec<u64> = before.into_iter().filter(|i| !after.contains(i)).collect();
+    let oldest = before.iter().map(|x| x.1).min().unwrap_or(0);
+    let gone: Vec<(u64, u64)> = before.into_iter().filter(|i| !after.iter().any(|a| a.0 == i.0)).collect();
     match gone.first() {
-        Some(v) if r == "ok" => format!("ok ev:{v}"),
+        // oracle on the implementation alone: the victim of the per-group cap must be one of the oldest messages
+        Some((v, c)) if r == "ok" => format!("ok ev:{v}{}", if *c == oldest && gone.len() == 1 { "" } else { "!not-the-oldest" }),
         _ => r,
     }
 }
